@@ -2,7 +2,7 @@ use std::{num::ParseIntError, str::FromStr};
 
 use crate::{
     util::{
-        constants::{BUG_MSG, SECS_PER_DAY},
+        constants::{BUG_MSG, DAYS_TO_1970_I64, SECS_PER_DAY},
         date::convert::{weekdays_in_month, year_doy_to_days, year_month_to_doy},
     },
     DateTime, DateUtilities,
@@ -118,19 +118,25 @@ impl AlternateLocalTimeType {
 }
 
 fn rule_to_local_timestamp(start: &RuleDay, time: i32, timestamp: i64) -> i64 {
+    let year = DateTime::from_timestamp(timestamp).year();
+    // The calendar (including the weekdays) repeats every 400 years (146097 days). The rule is evaluated in the
+    // equivalent year between 2000 and 2399 and moved back afterwards. This way, no date outside of the
+    // supported range is needed in the first and last supported year.
+    let linear_year = if year < 0 {
+        year as i64 + 1
+    } else {
+        year as i64
+    };
+    let year = linear_year.rem_euclid(400) as i32 + 2000;
+    let cycles = (linear_year - year as i64) / 400;
+
     let date_days = match start {
-        RuleDay::JulianDayWithoutLeap(doy) => {
-            let year = DateTime::from_timestamp(timestamp).year();
-            year_doy_to_days(year, *doy, true).unwrap()
-        }
+        RuleDay::JulianDayWithoutLeap(doy) => year_doy_to_days(year, *doy, true).unwrap(),
         RuleDay::JulianDayWithLeap(doy) => {
-            let year = DateTime::from_timestamp(timestamp).year();
             // Day 365 only exists in leap years. Counting from the first day of the year lets it roll over to the next year otherwise
             year_doy_to_days(year, 1, false).unwrap() + *doy as i32
         }
         RuleDay::MonthWeekDay(month, week, day) => {
-            let year = DateTime::from_timestamp(timestamp).year();
-
             let weekdays_in_month = weekdays_in_month(year, *month as u32, *day);
 
             let day_of_month = match week {
@@ -142,10 +148,8 @@ fn rule_to_local_timestamp(start: &RuleDay, time: i32, timestamp: i64) -> i64 {
             year_doy_to_days(year, start + day_of_month, false).unwrap()
         }
     };
-    let time = time as i64;
-    DateTime::from_seconds(date_days as i64 * SECS_PER_DAY as i64 + time)
-        .unwrap()
-        .timestamp()
+    let days = date_days as i64 + cycles * 146_097;
+    (days - DAYS_TO_1970_I64) * SECS_PER_DAY as i64 + time as i64
 }
 
 fn remove_designation(cursor: &mut Cursor) -> Result<(), TimeZoneError> {
